@@ -213,11 +213,14 @@ Definition change_setting (s : state) (c : command) : state :=
   | _ => s
   end.
 
-(* run_one_request after execute_request returned `res` (the phase is set here) *)
+(* run_one_request after execute_request returned `res`.  The request has been completed (its
+   promise is empty from here on), so nothing is in flight any more: the phase is PIdle while the
+   rest of run_one_request / run_connection runs. *)
 Definition finish (s : state) (r : request) (res : result) : state * list output :=
   let out := [OComplete (rq_id r) res] in
+  let s := set_ph s PIdle in
   match res with
-  | ROk => (set_tc (set_ph s PIdle) (if success_resets_counter then tc_reset (tcount s) else tcount s), out)
+  | ROk => (set_tc s (if success_resets_counter then tc_reset (tcount s) else tcount s), out)
   | RErr e =>
       match from_request_err e with
       | Some se => let '(s', o) := end_session s se in (s', out ++ o)
@@ -225,8 +228,8 @@ Definition finish (s : state) (r : request) (res : result) : state * list output
           if request_error_beq e counted_error then
             let '(t', stop) := tc_increment (tcount s) in
             if stop then let '(s', o) := end_session (set_tc s t') SeMaxTimeouts in (s', out ++ o)
-            else (set_tc (set_ph s PIdle) t', out)
-          else (set_tc (set_ph s PIdle) (tc_reset (tcount s)), out)
+            else (set_tc s t', out)
+          else (set_tc s (tc_reset (tcount s)), out)
       end
   end.
 
